@@ -18,13 +18,13 @@ function extract_next_field(src, dlm, preserve_quotes_and_whitespaces, allow_ext
     let match_obj = rgx.exec(src_cur);
     if (match_obj !== null) {
         let match_end = match_obj[0].length;
-        if (cidx + match_end == src.length || src[cidx + match_end] == dlm) {
+        if (cidx + match_end == src.length || src.startsWith(dlm, cidx + match_end)) {
             if (preserve_quotes_and_whitespaces) {
                 result.push(match_obj[0]);
             } else {
                 result.push(match_obj[1].replace(/""/g, '"'));
             }
-            return [cidx + match_end + 1, false];
+            return [cidx + match_end + dlm.length, false];
         }
         warning = true;
     }
@@ -34,7 +34,7 @@ function extract_next_field(src, dlm, preserve_quotes_and_whitespaces, allow_ext
     var field = src.substring(cidx, uidx);
     warning = warning || field.indexOf('"') != -1;
     result.push(field);
-    return [uidx + 1, warning];
+    return [uidx + dlm.length, warning];
 }
 
 
@@ -51,7 +51,7 @@ function split_quoted_str(src, dlm, preserve_quotes_and_whitespaces=false) {
         cidx = extraction_report[0];
         warning = warning || extraction_report[1];
     }
-    if (src.charAt(src.length - 1) == dlm)
+    if (cidx == src.length) // The last extracted field was followed by a trailing delimiter
         result.push('');
     return [result, warning];
 }
